@@ -53,6 +53,8 @@ def run_check(spec, tier, seed, log=print):
         if spec.prop not in THOROUGH_VERIFIED and not os.environ.get("VERIF_FORCE_THOROUGH"):
             space = "quick"
     jobs = spec.shards(space)
+    if os.environ.get("VERIF_ONLY"):  # development aid: run only the shards whose parameters mention this text
+        jobs = [j for j in jobs if os.environ["VERIF_ONLY"] in json.dumps(j["params"])]
     if space != tier:
         for j in jobs:
             j["budget_s"] = j.get("budget_s", 600.0) * 2
